@@ -11,6 +11,7 @@ import GrafeoModel.Driver.Sess
 import GrafeoModel.Driver.Algo
 import GrafeoModel.Driver.Hnsw
 import GrafeoModel.Driver.Pers
+import GrafeoModel.Driver.Lex
 
 /-!
 `gdriver`: reads op lines `<stream> <op> <arg>*` on stdin, writes one line per op:
@@ -57,6 +58,10 @@ def dispatch (st : DState) (line : String) : DState × String :=
       | none => (st, "bad-op")
     else if stream == "hnsw" then
       match DriverHnsw.handle args with
+      | some o => (st, o.render)
+      | none => (st, "bad-op")
+    else if stream == "lex" then
+      match DriverLex.handle args with
       | some o => (st, o.render)
       | none => (st, "bad-op")
     else if stream == "tx" then
